@@ -9,7 +9,9 @@ import (
 	"sync"
 	"time"
 
+	"github.com/ARM-software/golang-utils/utils/commonerrors"
 	"github.com/ARM-software/golang-utils/utils/subprocess"
+	"github.com/ARM-software/golang-utils/utils/subprocess/supervisor"
 )
 
 func init() {
@@ -18,8 +20,8 @@ func init() {
 		Run:            runC05,
 		Level:          "exploration",
 		ReplayAttempts: 3,
-		Rule: "engine 'proc' (real kernel, real processes, lock-stepped): a generated process tree - every member is the harness' helper binary executing a script: chains and fans of descendants (depth 1..3), background children that keep or close the inherited output pipes, members ignoring SIGTERM, parents that exit before their children, members that leave the process group (excluded from the oracle, as the property says) - is started through the library (Execute, or Start) and stopped (context cancel, context deadline, Cancel(), Stop(), Restart()) at a scripted instant: before the tree has finished spawning, right after it is complete, or later; every member records its pid; " +
-			"oracle (end state, wall-clock bounds two orders of magnitude away from the descendants' 20 s lifetime): Execute()/Stop()/Restart() return within 5 s of the stop request; 2 s later no recorded member of the process group is alive; IsOn() is false (true after Restart, whose new tree is then stopped). non-trivial = the tree has at least one descendant; distinct = distinct scenario digest",
+		Rule: "engine 'proc' (real kernel, real processes, lock-stepped): a generated process tree - every member is the harness' helper binary executing a script: chains and fans of descendants (depth 1..3), background children that keep or close the inherited output pipes, members ignoring SIGTERM, parents that exit before their children, members that leave the process group (excluded from the oracle, as the property says) - is started through the library (Execute, Start, or the supervisor's Run loop) and stopped (context cancel, expiry of the context's deadline, Cancel(), Stop(), Restart()) at a scripted instant: before the tree has finished spawning, right after it is complete, or later; every member records its pid; " +
+			"oracle (end state, wall-clock bounds well inside the descendants' 20 s lifetime): Execute()/Stop()/Restart() return within 8 s of the stop request; 2 s later no recorded member of the process group is alive; IsOn() is false (true after Restart, whose new tree is then stopped). non-trivial = the tree has at least one descendant; distinct = distinct scenario digest",
 		Real:        []string{"utils/subprocess (executor, command wrapper incl. process-group attributes, monitoring)", "utils/proc (tree kill: SIGTERM, group kill, children)", "os/exec, gopsutil, the Linux kernel (process groups, signals, pipes)"},
 		Stub:        []string{"the process tree: harness helper binary executing generated scripts, parked at script steps by sleeping; every helper self-destructs after 25 s", "nothing else: time is real"},
 		Assumptions: []string{"not simulated time: there is no seam between the library and the kernel's process table, so this is the weakest member of the technique family - seeded scenarios on the real kernel, end-state oracles, wall-clock bounds", "built with go1.26.8; go-deadlock detection disabled", "a scenario is re-executed up to 3 times on replay"},
@@ -145,15 +147,19 @@ func runC05(rc *RunCtx) {
 		return
 	}
 	tree := genC05Tree(ch, "r", 0)
-	startMode := ch.Pick("start", 1, 1)        // 0 Execute, 1 Start
+	startMode := ch.Pick("start", 3, 3, 1)     // 0 Execute, 1 Start, 2 supervisor (Run: Execute in a restart loop)
 	stopMode := ch.Pick("stop", 3, 3, 2, 3, 3) // 0 ctx cancel, 1 ctx deadline, 2 Cancel(), 3 Stop(), 4 Restart()
+	if startMode == 2 {
+		stopMode = ch.Intn("stopsup", 2) // a supervisor is stopped through its context
+		tree.exitEarly = false           // one generation only: a command that ends by itself is restarted, its orphans are not "the running subprocess"
+	}
 	if startMode == 0 && stopMode >= 3 {
 		stopMode = ch.Intn("stopexec", 3) // Stop()/Restart() on a blocking Execute make no sense: another goroutine could call them, kept simple
 	}
 	when := ch.Pick("when", 2, 5, 2) // 0 early (tree still spawning), 1 right after the tree is complete, 2 later
 	// daemon style: the command itself exits once it has launched descendants that keep none of its output pipes; what
 	// is stopped later is a process group without its leader
-	if len(tree.children) > 0 && ch.Pick("daemonstyle", 4, 1) == 1 {
+	if len(tree.children) > 0 && ch.Pick("daemonstyle", 4, 1) == 1 && startMode != 2 {
 		tree.exitEarly, tree.suspended = true, false
 		var detach func(m *c05Member)
 		detach = func(m *c05Member) {
@@ -166,7 +172,7 @@ func runC05(rc *RunCtx) {
 		when = 2
 		res.Probe("daemon-style-tree")
 	}
-	startName := []string{"Execute", "Start"}[startMode]
+	startName := []string{"Execute", "Start", "Supervisor"}[startMode]
 	stopName := []string{"context-cancel", "context-deadline", "Cancel()", "Stop()", "Restart()"}[stopMode]
 	whenName := []string{"while-spawning", "tree-complete", "later"}[when]
 	res.Config = fmt.Sprintf("tree=%s start=%s stop=%s when=%s", tree.describe(), startName, stopName, whenName)
@@ -198,7 +204,19 @@ func runC05(rc *RunCtx) {
 	}
 	execDone := make(chan error, 1)
 	t0 := time.Now()
-	if startMode == 0 {
+	var supMu sync.Mutex
+	if startMode == 2 {
+		sup := supervisor.NewSupervisor(func(c context.Context) (*subprocess.Subprocess, error) {
+			np, nerr := subprocess.New(c, rec, "start", "success", "failure", helperPath(), script)
+			if nerr == nil {
+				supMu.Lock()
+				p = np
+				supMu.Unlock()
+			}
+			return np, nerr
+		}, supervisor.WithRestartDelay(10*time.Millisecond))
+		go func() { execDone <- sup.Run(expiring) }()
+	} else if startMode == 0 {
 		go func() { execDone <- p.Execute() }()
 	} else {
 		if err := p.Start(); err != nil {
@@ -237,7 +255,7 @@ func runC05(rc *RunCtx) {
 	}
 	// a blocking Execute that has already returned (the root exited on its own) is no longer a running subprocess:
 	// stopping it afterwards is outside the property
-	if startMode == 0 {
+	if startMode != 1 {
 		select {
 		case e := <-execDone:
 			res.Probe("execute-returned-before-the-stop-request")
@@ -275,20 +293,31 @@ func runC05(rc *RunCtx) {
 	returned := true
 	select {
 	case <-stopDone:
-	case <-time.After(5 * time.Second):
+	case <-time.After(8 * time.Second):
 		returned = false
-		viol("stop-call-blocked", fmt.Sprintf("%s did not return within 5 s", stopName))
+		viol("stop-call-blocked", fmt.Sprintf("%s did not return within 8 s", stopName))
 	}
-	if startMode == 0 {
-		left := 5*time.Second - time.Since(stopAt)
+	if startMode != 1 {
+		left := 8*time.Second - time.Since(stopAt)
 		if left < 0 {
 			left = 0
 		}
 		select {
-		case <-execDone:
+		case execErr := <-execDone:
+			// a command that ends by itself (the root exits early) may do so at the very moment of the stop request:
+			// when Execute does not report a context kind it did not act on the request - it had finished on its own,
+			// which is the same situation as "returned before the stop request", only decided a moment later
+			if startMode == 0 && tree.exitEarly && !commonerrors.Any(execErr, commonerrors.ErrCancelled, commonerrors.ErrTimeout) {
+				res.Probe("execute-ended-by-itself-at-the-stop-request")
+				res.NonTrivial = false
+				if rc.KeepTrace {
+					res.Trace = []string{res.Config, fmt.Sprintf("Execute returned %v: the command had ended by itself when the stop request arrived: scenario vacuous", execErr)}
+				}
+				return
+			}
 		case <-time.After(left):
 			returned = false
-			viol("execute-blocked", fmt.Sprintf("Execute() had not returned 5 s after %s", stopName))
+			viol("execute-blocked", fmt.Sprintf("%s had not returned 8 s after %s", map[int]string{0: "Execute()", 2: "Supervisor.Run()"}[startMode], stopName))
 		}
 	}
 	res.SimNanos = int64(time.Since(t0))
@@ -301,8 +330,8 @@ func runC05(rc *RunCtx) {
 		go func() { st <- p.Stop() }()
 		select {
 		case <-st:
-		case <-time.After(5 * time.Second):
-			viol("stop-call-blocked", "Stop() after Restart() did not return within 5 s")
+		case <-time.After(8 * time.Second):
+			viol("stop-call-blocked", "Stop() after Restart() did not return within 8 s")
 		}
 	}
 	// survivors: give the kernel 2 s
@@ -350,6 +379,8 @@ func runC05(rc *RunCtx) {
 		}
 		viol("survivors|"+strings.Join(ks, "+"), fmt.Sprintf("%d of %d members of the process group are still alive 2 s after the stop completed: %v", len(live), members, live))
 	}
+	supMu.Lock()
+	defer supMu.Unlock()
 	if returned {
 		// Cancel() and context cancellation are asynchronous requests: IsOn() gets the same 2 s as the processes
 		for p.IsOn() && time.Now().Before(limit) {
